@@ -148,6 +148,11 @@ def totality(ctx: Ctx, spec, dtype):
         return
     pv = prefs_for(spec, m) if rng.random() < 0.5 or spec.pref == "weights" else None
     A = spec.make(m, dtype, pv)
+    if spec.name == "GradDrop" and pv is not None and rng.random() < 0.5:
+        # the leak vector handed over in the OTHER floating precision than the matrix (values i/2: exact in both)
+        od = torch.float64 if dtype == torch.float32 else torch.float32
+        A = GradDrop(leak=torch.tensor([float(v) for v in pv], dtype=od))
+        ctx.count("graddrop_leak_other_dtype")
     if spec.pref == "pref" and pv is not None and rng.random() < 0.3:
         # a preference vector that is itself being learned (a leaf requiring grad, or computed from one): still a tensor
         cls = {"UPGrad": UPGrad, "DualProj": DualProj, "AlignedMTL": AlignedMTL, "ConFIG": ConFIG}[spec.name]
